@@ -536,6 +536,8 @@ class Interp:
                 return obj.attrs[name]
             if name == '__class__':
                 return obj.cls
+            if name == '__dict__':
+                return obj.attrs            # the instance dictionary itself (cached properties live here as well)
             if isinstance(obj, ExcObj) and name == 'args':
                 return obj.args
             try:
